@@ -13,6 +13,7 @@ bit for bit), recorded as a boolean the trace module demands to be TRUE.
 """
 import hashlib
 import random
+from collections import Counter as collections_Counter
 import warnings
 
 import numpy as np
@@ -151,12 +152,14 @@ BOUNDS = {
     "quick":    dict(MaxLen=3, Vals=set(range(1, 6)), BinSizes={1, 2, 3}, NBinSet={1, 2, 3, 4}, LimVals=set(range(0, 7)),
                      RepFan=1, HLens={1, 2, 3}, HVals={1, 2, 4}, HBinSizes={1, 2}, HNBins={2, 3}, HNPer={1, 2},
                      HMins={2}, HMaxs={3}, HDepth=2, HThin=3, HBothW=False,
-                     ScaleNs={1023, 1024, 1025, 2048, 4096, 8192, 6145, 65537}, SmallNs={4, 5, 6}, ScaleThin=48),
+                     ScaleNs={1023, 1024, 1025, 2048, 4096, 8192, 6145, 65537}, SmallNs={4, 5, 6}, ScaleThin=48,
+                     WLens={2, 3}, WVals={1, 2, 4}, WDepth=3, WThin=4, WXColl=1, WXRest=1),
     "thorough": dict(MaxLen=4, Vals=set(range(1, 7)), BinSizes={1, 2, 3, 5}, NBinSet={1, 2, 3, 4}, LimVals=set(range(0, 8)),
                      RepFan=1, HLens={1, 2, 3}, HVals={1, 2, 4}, HBinSizes={1, 2}, HNBins={2, 3}, HNPer={1, 2},
                      HMins={2}, HMaxs={3}, HDepth=3, HThin=48, HBothW=True,
                      ScaleNs={1023, 1024, 1025, 2047, 2048, 3072, 4096, 5121, 6145, 8192, 49152, 65535, 65536, 65537, 131073},
-                     SmallNs={4, 5, 6, 7}, ScaleThin=12),
+                     SmallNs={4, 5, 6, 7}, ScaleThin=12,
+                     WLens={2, 3}, WVals={1, 2, 4}, WDepth=4, WThin=4, WXColl=1, WXRest=1),
 }
 
 
@@ -630,6 +633,234 @@ def judge_scale(ctx, recs, what):
             ctx.violation("histogram.scale|argument_modified", "histogram modified its data argument", {"kind": "scale", "sc": r["sc"], "id": r["id"]})
 
 
+# ---- world sessions (HistMC.tla: WNew / WStep; Hist.tla: HWStepFailing) ----------------------------------
+# kinds of data object: what the caller can do to the buffer behind it while the OBJECT stays the same
+WKINDS = ["roview", "bcast", "memmap", "robuf", "rostrided", "writable", "list", "rofield"]
+RO_NDARRAY = ("roview", "bcast", "memmap", "robuf", "rostrided", "rofield")
+WORLD = {"quick": dict(export=dict(WThin=1, WXColl=3, WXRest=80), sim_depth=10, sim_num=100, sim_keep=150),
+         "thorough": dict(export=dict(WThin=1, WXColl=11, WXRest=900), sim_depth=14, sim_num=400, sim_keep=1500)}
+
+
+def w_make(kind, vals, tmpdir, tag):
+    """-> (object handed to esutil, write(newvals): the caller changes the buffer behind it)"""
+    a = np.array(vals, dtype="f8")
+    n = a.size
+    if kind == "roview":
+        base = a.copy(); v = base.view(); v.flags.writeable = False
+        def write(new): base[:] = new
+    elif kind == "bcast":
+        row = a.copy(); v = np.broadcast_to(row, (2, n))[1]
+        def write(new): row[:] = new
+    elif kind == "memmap":
+        import os
+        path = os.path.join(tmpdir, "m%s.bin" % tag)
+        a.tofile(path)
+        wm = np.memmap(path, dtype="f8", mode="r+")
+        v = np.memmap(path, dtype="f8", mode="r")
+        def write(new): wm[:] = new; wm.flush()
+    elif kind == "robuf":
+        ba = bytearray(a.tobytes()); v = np.frombuffer(memoryview(ba).toreadonly(), dtype="f8")
+        def write(new): ba[:] = np.array(new, dtype="f8").tobytes()
+    elif kind == "rostrided":
+        base = np.full(2 * n + 1, JUNK); base[1::2] = a; v = base[1::2]; v.flags.writeable = False
+        def write(new): base[1::2] = new
+    elif kind == "rofield":
+        rec = np.zeros(n, dtype=[("v", "<f8"), ("t", "<i4")]); rec["v"] = a; v = rec["v"]; v.flags.writeable = False
+        def write(new): rec["v"] = new
+    elif kind == "list":
+        v = [float(t) for t in a]
+        def write(new): v[:] = [float(t) for t in new]
+    else:
+        v = a.copy()
+        def write(new): v[:] = new
+    if kind in RO_NDARRAY and (not isinstance(v, np.ndarray) or v.flags.writeable):
+        raise MachineryError("object of kind %s is not a read-only ndarray" % kind)
+    return v, write
+
+
+def _w_call(su, x, t, unit, off, srep):
+    """one call of a session -> (observation, the arrays it returned)"""
+    kw = spec_kw(t, unit, off, srep)
+    rev, e = bool(t["rev"]), t["entry"]
+    try:
+        with warnings.catch_warnings():
+            warnings.simplefilter("ignore")
+            with np.errstate(all="ignore"):
+                if e == "histogram":
+                    res = su.histogram(x, rev=rev, **kw)
+                    d = {"hist": res[0], "rev": res[1]} if rev else {"hist": res}
+                elif e == "binner":
+                    d = su.Binner(x)
+                    d.dohist(rev=rev, **kw)
+                elif e == "more":
+                    d = su.histogram(x, rev=rev, more=True, **kw)
+                else:
+                    d = su.histogram(x, weights=_weights(np.size(x)), rev=rev, **kw)
+        return _obs_of(d), d
+    except Exception as ex:  # noqa
+        return _obs_of(None, type(ex).__name__), None
+
+
+def _w_kinds(i, w):
+    """the model's pick rotated by the session number: every kind meets every session shape"""
+    return [WKINDS[(WKINDS.index(k) + i) % len(WKINDS)] for k in w["kinds"]]
+
+
+def world_session(args):
+    """one session, start to end, in THIS process (call it in a fresh child)"""
+    import shutil
+    import tempfile
+    import esutil.stat.util as su
+    i, w = args
+    unit, off = LATTICES["float"][i % len(LATTICES["float"])]
+    conc = lambda xs: [(v + off) * unit for v in xs]
+    srep = SREPS[i % len(SREPS)]
+    engine = "c" if i % 2 else "py"
+    kinds = _w_kinds(i, w)
+    tmpdir = tempfile.mkdtemp(prefix="C05-world-")
+    saved = su.have_chist
+    su.have_chist = (engine == "c") and saved
+    outs, frame_ok = [], True
+    try:
+        objs, writers, cur = [None, None], [None, None], [list(w["objs"][0]), list(w["objs"][1])]
+        gen = 0
+        for s in (0, 1):
+            objs[s], writers[s] = w_make(kinds[s], conc(cur[s]), tmpdir, "%d_%d" % (s, gen))
+        last = None
+        for t in w["steps"]:
+            s = t["slot"] - 1
+            o = {"err": "none", "hist": [], "hasrev": False, "rev": [], "engine": engine}
+            if t["op"] == "call":
+                o, last = _w_call(su, objs[s], t, unit, off, srep)
+                o["engine"] = engine
+                frame_ok = frame_ok and np.array_equal(np.asarray(objs[s], dtype="f8"), np.array(conc(cur[s])))
+            elif t["op"] == "mutate":
+                writers[s](conc(t["x"])); cur[s] = list(t["x"])
+            elif t["op"] == "replace":
+                objs[s] = writers[s] = None          # dropped first: the new object may well get the same address
+                gen += 1
+                objs[s], writers[s] = w_make(kinds[s], conc(t["x"]), tmpdir, "%d_%d" % (s, gen))
+                cur[s] = list(t["x"])
+            else:                                    # scribble: the results are the caller's
+                if last is not None:
+                    for k in list(last):
+                        v = last[k]
+                        if isinstance(v, np.ndarray) and v.flags.writeable and not any(
+                                isinstance(ob, np.ndarray) and np.may_share_memory(v, ob) for ob in objs):
+                            v.fill(0)
+                    bs = getattr(last, "sort_index", None)
+                    if isinstance(bs, np.ndarray) and bs.flags.writeable:
+                        bs.fill(0)
+            outs.append(o)
+            # the objects must hold what the session says they hold (machinery check of the harness itself)
+            for q in (0, 1):
+                if not np.array_equal(np.asarray(objs[q], dtype="f8"), np.array(conc(cur[q]))):
+                    return {"id": i, "kind": "world", "w": w, "machinery": "object %d of kind %s does not hold the session's contents" % (q + 1, kinds[q])}
+    finally:
+        su.have_chist = saved
+        objs = writers = None
+        shutil.rmtree(tmpdir, ignore_errors=True)
+    return {"id": i, "kind": "world", "w": w, "outs": outs, "frame_ok": bool(frame_ok), "kinds": kinds, "engine": engine}
+
+
+def in_child(fn, arg):
+    """fn(arg) in a forked child of its own (a fresh world: nothing an earlier session did can be seen); the result
+    comes back as JSON.  -> result or {"died": exit status}"""
+    import json
+    import os
+    r, wfd = os.pipe()
+    pid = os.fork()
+    if pid == 0:
+        code = 1
+        try:
+            os.close(r)
+            data = json.dumps(fn(arg)).encode()
+            with os.fdopen(wfd, "wb") as f:
+                f.write(data)
+            code = 0
+        finally:
+            os._exit(code)
+    os.close(wfd)
+    with os.fdopen(r, "rb") as f:
+        data = f.read()
+    _, status = os.waitpid(pid, 0)
+    if status != 0 or not data:
+        return {"died": status}
+    return json.loads(data)
+
+
+def run_world(args):
+    rec = in_child(world_session, args)
+    if "died" in rec:
+        return {"id": args[0], "kind": "world", "w": args[1], "died": rec["died"]}
+    return rec
+
+
+def world_class(w, k, kinds):
+    """structural class of call k (1-based) of a session: what happened to ITS object since it was last histogrammed"""
+    st = w["steps"]
+    s = st[k - 1]["slot"]
+    kind = kinds[s - 1]
+    kc = "readonly_ndarray" if kind in RO_NDARRAY else kind
+    prev = [j for j in range(k - 1) if st[j]["op"] == "call" and st[j]["slot"] == s]
+    if not prev:
+        return "first_call_on_object|" + kc
+    between = [t["op"] for t in st[prev[-1] + 1:k - 1] if t["op"] in ("mutate", "replace") and t["slot"] == s]
+    if "replace" in between:
+        return "object_replaced|" + kc
+    if "mutate" in between:
+        return "same_object_buffer_changed|" + kc
+    if st[k - 2]["op"] == "scribble":
+        return "results_scribbled|" + kc
+    return "same_object_unchanged|" + kc
+
+
+def judge_world(ctx, recs, what):
+    ok = []
+    for r in recs:
+        if "machinery" in r:
+            raise MachineryError("world session %s: %s" % (r["id"], r["machinery"]))
+        if "died" in r:
+            ctx.violation("histogram.world|interpreter_killed", "the interpreter died (status %s) while executing a session of calls" % r["died"],
+                          {"kind": "world", "w": r["w"], "id": r["id"]})
+        else:
+            ok.append(r)
+    rejects = tracecheck.validate(ctx, "HistTrace.tla", [{"id": r["id"], "kind": "world", "w": r["w"], "outs": r["outs"]} for r in ok],
+                                  what=what, shard_size=1200)
+    byid = {r["id"]: r for r in ok}
+    for rid, failing in rejects.items():
+        r = byid[rid]
+        for f in failing:
+            k, cl = f.split(":", 1)
+            ctx.violation("histogram.world|%s|%s" % (cl, world_class(r["w"], int(k), r["kinds"])),
+                          "call %s of a session of calls in ONE process returned what Hist.tla does not allow for its arguments as they "
+                          "were at the time of the call (a fresh process does): clause %s" % (k, cl),
+                          {"kind": "world", "w": r["w"], "id": r["id"], "outs": r["outs"], "kinds": r["kinds"], "engine": r["engine"]})
+    for r in ok:
+        if not r["frame_ok"]:
+            ctx.violation("histogram.world|argument_modified", "histogram modified its data argument", {"kind": "world", "w": r["w"], "id": r["id"]})
+    return rejects
+
+
+def _world_guard(sessions, first_id):
+    """vacuity guard: the sessions contain the collisions they are designed for, in every kind of object"""
+    seen = collections_Counter()
+    for i, w in enumerate(sessions, first_id):
+        kinds = _w_kinds(i, w)
+        for k, t in enumerate(w["steps"], 1):
+            if t["op"] == "call" and t["rev"] and t["entry"] != "binner":
+                cls = world_class(w, k, kinds)
+                prev = [j for j in range(k - 1) if w["steps"][j]["op"] == "call" and w["steps"][j]["slot"] == t["slot"]]
+                if prev and w["steps"][prev[-1]]["entry"] != "binner":
+                    seen[cls.split("|")[0]] += 1
+                    seen[(cls.split("|")[0], kinds[t["slot"] - 1])] += 1
+    need = [c for c in ("same_object_buffer_changed", "object_replaced", "results_scribbled", "same_object_unchanged") if seen[c] < 20]
+    need += [(c, kd) for c in ("same_object_buffer_changed", "object_replaced") for kd in WKINDS if seen[(c, kd)] < 2]
+    if need:
+        raise MachineryError("world sessions lack designed collisions: %s" % (need[:6],))
+    return {c: seen[c] for c in ("same_object_buffer_changed", "object_replaced", "results_scribbled", "same_object_unchanged")}
+
+
 # ---- judging ----------------------------------------------------------------------------------------
 def judge(ctx, recs, what, shard_size=5000):
     rejects = tracecheck.validate(ctx, "HistTrace.tla", [{"id": r["id"], "kind": "case", "c": r["c"], "obs": r["obs"]} for r in recs],
@@ -690,11 +921,12 @@ def _design_guard(cases, hists):
 
 def run(ctx):
     B = BOUNDS[ctx.tier]
-    consts = dict(B, FixedFill=True, DoExport=False, FixedCache=True, FixedSel=True)
+    consts = dict(B, FixedFill=True, DoExport=False, FixedCache=True, FixedSel=True, WMemo="content", WShare=False)
     # 2. export every case and every object history (spec -> code)
     r2 = ctx.tlc("HistMC.tla", what="export cases and object histories",
-                 cfg_text=cfg(constants=dict(consts, DoExport=True), next_="NextExport",
+                 cfg_text=cfg(constants=dict(consts, DoExport=True, **WORLD[ctx.tier]["export"]), next_="NextExport",
                               constraints=["Export"]), workers=1, coverage=False, timeout=3000)
+    worlds = r2.records.get("WORLD", [])
     cases = r2.records.get("CASE", [])
     hists = r2.records.get("HIST", [])
     scales = r2.records.get("SCALE", [])
@@ -713,10 +945,24 @@ def run(ctx):
     if len(deep) < D["keep"] // 2 or any(len(h["calls"]) != D["depth"] for h in deep):
         raise MachineryError("simulation produced %d long histories" % len(deep))
     design = _design_guard(cases, hists)
+    # 2d. world sessions: long random ones (tlc -simulate over the world machine) besides the exported short ones
+    WD = WORLD[ctx.tier]
+    r2d = ctx.tlc("HistMC.tla", what="simulate long world sessions",
+                  cfg_text=cfg(constants=dict(consts, DoExport=True, WThin=1, WDepth=WD["sim_depth"]), next_="NextWorldDeep",
+                               constraints=["Export"]), workers=1, coverage=False, timeout=3000,
+                  simulate="num=%d" % WD["sim_num"], extra=["-depth", str(WD["sim_depth"] + 2), "-seed", str(2000 + ctx.seed)])
+    wdeep = r2d.records.get("WORLD", [])
+    wdeep = wdeep[:: max(1, len(wdeep) // WD["sim_keep"])][:WD["sim_keep"]]
+    if len(worlds) < 1000 or len(wdeep) < WD["sim_keep"] // 2 or any(len(w["steps"]) != WD["sim_depth"] for w in wdeep):
+        raise MachineryError("%d exported / %d simulated world sessions" % (len(worlds), len(wdeep)))
+    wfirst = 900001
+    worlds = worlds + wdeep
+    wdesign = _world_guard(worlds, wfirst)
     # 1. design level: the implementation-shaped pass refines the property, every case of the space; the object with its
     #    cached sort index refines the property along every history
     r1 = ctx.tlc("HistMC.tla", what="mechanism and object refine property (exhaustive)",
-                 cfg_text=cfg(constants=consts, invariants=["MechRefines", "PassSafe", "RefAccepted", "ObjRefines", "CacheSound", "ConcatLaw", "ScaleLaw"]),
+                 cfg_text=cfg(constants=consts, invariants=["MechRefines", "PassSafe", "RefAccepted", "ObjRefines", "CacheSound", "ConcatLaw", "ScaleLaw",
+                                                           "WorldRefines", "WorldCurOK"]),
                  workers=16, coverage=False, timeout=3000)
     # vacuity: the export run visits exactly the enumeration states of this run; the rest are Begin/Step/Fill states, of
     # which every runnable case has at least three
@@ -741,6 +987,16 @@ def run(ctx):
                   workers=4, allow_violation=True, coverage=False)
     if "ObjRefines" not in r1d.violated:
         raise MachineryError("self-test failed: ObjRefines not violated by the object that caches the selection")
+    # 1c. non-vacuity of WorldRefines: a process-level memo of the sort index keyed by object identity, and a memo that
+    #     hands out its own result arrays, must violate it
+    wsmall = dict(consts, WLens={2}, MaxLen=1, HLens={1}, HDepth=1, ScaleNs=set(), SmallNs=set())
+    for memo, share, txt in (("ro_id", False, "sort index remembered per read-only object identity"),
+                             ("none", True, "memo handing out its own result arrays")):
+        rw = ctx.tlc("HistMC.tla", what="self-test: %s violates WorldRefines" % txt,
+                     cfg_text=cfg(constants=dict(wsmall, WMemo=memo, WShare=share), next_="NextWorld", invariants=["WorldRefines"]),
+                     workers=4, allow_violation=True, coverage=False)
+        if "WorldRefines" not in rw.violated:
+            raise MachineryError("self-test failed: WorldRefines not violated by the deviating process (%s)" % txt)
     recs, dead = _split_crashes(safe_pmap(run_case, list(enumerate(cases, 1))))
     report_crashes(ctx, dead, "cases")
     for r in recs:
@@ -765,6 +1021,12 @@ def run(ctx):
     for r in srecs:
         ctx.count(r["sc"])
     judge_scale(ctx, srecs, "judge scale cases (HistTrace)")
+    # 2e. world sessions, each in a fresh child process of its own, every call judged with the contents of its object at that time
+    wrecs = pmap(run_world, list(enumerate(worlds, wfirst)))
+    for r in wrecs:
+        ctx.count(r["w"])
+    ctx.sample({"world_session": wrecs[len(wrecs) // 3]["w"], "observed": wrecs[len(wrecs) // 3].get("outs")})
+    judge_world(ctx, wrecs, "judge world sessions (HistTrace)")
     # 3. larger seeded cases and histories, code -> spec
     nrand, maxlen = (400, 60) if ctx.quick else (6000, 200)
     rc = random_cases(random.Random(ctx.seed), nrand, maxlen, len(cases) + 1)
@@ -834,7 +1096,8 @@ def run(ctx):
     ctx.note(bounds={k: sorted(v) if isinstance(v, set) else v for k, v in B.items()}, offlattice_engine_pairs=noff,
              exported_cases=len(cases), exported_histories=len(hists), covering_design=design,
              simulated_long_histories=len(deep), calls_per_long_history=D["depth"], scale_cases=len(scales),
-             scale_sizes=sorted(B["ScaleNs"]))
+             scale_sizes=sorted(B["ScaleNs"]), world_sessions=len(worlds), world_long_sessions=len(wdeep),
+             steps_per_long_session=WD["sim_depth"], world_designed_collisions=wdesign, world_object_kinds=WKINDS)
     ctx.assumptions = ["dyadic lattice: binary64 subtraction and quotient floor are exact unless the real quotient is an integer and the bin size inexact (those bins are unconstrained)",
                        "non-dyadic data/bin sizes off the lattice are compared engine-vs-engine only",
                        "equal-occupancy (nperbin) calls inside a history are judged by the partition clauses only (bin occupancy is C14's)",
@@ -856,6 +1119,11 @@ def replay(ctx, case):
         report_crashes(ctx, dead, "replay")
         if dead:
             return
+    if case.get("kind") == "world":
+        rec = run_world((case.get("id", 1), case["w"]))           # the whole session again, in a fresh process of its own
+        print("replay observed:", rec.get("outs", rec))
+        judge_world(ctx, [rec], "replay")
+        return
     if case.get("kind") == "scale":
         rec = run_scale((case.get("id", 1), case["sc"]))
         print("replay observed:", rec["obs"], "engines same:", rec["same"])
